@@ -49,9 +49,14 @@ def patched_worktree(d, tag):
     revs = ["HEAD"]
     mp = os.path.join(d, "meta.json")
     if os.path.exists(mp):
-        c = json.load(open(mp)).get("applies_to_repo_commit")
+        m = json.load(open(mp))
+        c = m.get("applies_to_repo_commit")
         if c:
             revs.append(c)
+        if m.get("pin_repo_commit"):
+            # a later repair in /repo made this change harmless (it still applies, but no longer breaks the property):
+            # it is only meaningful on the tree it was written for
+            revs = [m["pin_repo_commit"]]
     for rev in revs:
         wt = worktree(tag, rev)
         rc, out = sh(["git", "apply", patch], cwd=wt)
